@@ -15,13 +15,15 @@ enum OpKind {
   O_CREATE = 0, O_RELEASE, O_CALL, O_MOVE_MOCK, O_DESTROY_MOCK, O_RECREATE_MOCK,
   O_DESTROY_SEQ, O_MOVE_SEQ, O_RECREATE_SEQ,
   O_WATCH, O_UNWATCH, O_DESTROY_DW, O_COPY_DW, O_MOVE_DW, O_ASSIGN_DW, O_RECREATE_DW,
-  O_PUSH_TRACER, O_POP_TRACER, O_SWAP_REPORTER, O_DESTROY_HUSKS, O_SCOPED, O_SCOPED_DW, NOPKIND
+  O_PUSH_TRACER, O_POP_TRACER, O_SWAP_REPORTER, O_DESTROY_HUSKS, O_SCOPED, O_SCOPED_DW,
+  O_DROP_TRACER,   // destroy the k-th live tracer (oldest = 0), wherever it is in the nesting
+  NOPKIND
 };
 inline const char* op_name(int k) {
   static const char* n[] = {"create", "release", "call", "move_mock", "destroy_mock", "recreate_mock",
                             "destroy_seq", "move_seq", "recreate_seq",
                             "watch", "unwatch", "destroy_dw", "copy_dw", "move_dw", "assign_dw", "recreate_dw",
-                            "push_tracer", "pop_tracer", "swap_reporter", "destroy_husks", "scoped", "scoped_dw"};
+                            "push_tracer", "pop_tracer", "swap_reporter", "destroy_husks", "scoped", "scoped_dw", "drop_tracer"};
   return (k >= 0 && k < NOPKIND) ? n[k] : "?";
 }
 // argument layout of O_CREATE
@@ -230,7 +232,7 @@ class Model {
       case O_ASSIGN_DW: return dw[o.at(0)].alive && dw[o.at(1)].alive && o.at(0) != o.at(1);
       case O_RECREATE_DW: return !dw[o.at(0)].alive;
       case O_PUSH_TRACER: return static_cast<int>(tracers.size()) < MAXTR;
-      case O_POP_TRACER: return !tracers.empty();
+      case O_POP_TRACER: case O_DROP_TRACER: return !tracers.empty();
       case O_SWAP_REPORTER: return true;
       case O_DESTROY_HUSKS: return husks > 0;
       case O_SCOPED: return obj[o.at(0)].alive && o.at(1) != o.at(2);  // composite: executed by the interpreter as sub-operations
@@ -558,6 +560,7 @@ class Model {
       case O_RECREATE_DW: dw[o.at(0)].alive = true; dw[o.at(0)].reqs.clear(); break;
       case O_PUSH_TRACER: tracers.push_back(tracer_ids++); break;
       case O_POP_TRACER: tracers.pop_back(); break;
+      case O_DROP_TRACER: tracers.erase(tracers.begin() + o.at(0) % static_cast<int>(tracers.size())); break;
       case O_SWAP_REPORTER: rep_gen++; if (o.at(0)) ok_gen = rep_gen; break;
     }
     return x;
